@@ -117,6 +117,28 @@ pub fn corpus(thorough: bool) -> Vec<Program> {
             ],
         });
     }
+    // every tag of a content given by a function application, with recs inside (evaluating a
+    // tag opens scopes: their order decides the names of implicit components)
+    out.push(single(vec![
+        fun("mk", &["t"], E::Str("application/json".into())),
+        fun("st", &["s"], var("s")),
+        fun("paging", &["t"], obj(vec![prop("X-Next", E::Rec("x".into(), Box::new(obj(vec![prop("v", var("t")), prop("n", arr(var("x")))]))))])),
+        fun("tree", &["t"], E::Rec("y".into(), Box::new(obj(vec![prop("v", var("t")), prop("kids", arr(var("y")))])))),
+        Stmt::Res(rel(
+            uri_lit(&["tags"]),
+            vec![xfer(
+                Method::Get,
+                E::Content(
+                    vec![
+                        (Meta::Media, E::App(None, "mk".into(), vec![E::Num(1)])),
+                        (Meta::Headers, E::App(None, "paging".into(), vec![E::Prim(Prim::Str)])),
+                        (Meta::Status, E::App(None, "st".into(), vec![E::Num(200)])),
+                    ],
+                    Some(Box::new(E::App(None, "tree".into(), vec![E::Prim(Prim::Num)]))),
+                ),
+            )],
+        )),
+    ]));
     // examples on a content and on its body schema (two maps meet), >= 2 entries each
     out.push(single(vec![
         Stmt::Let {
@@ -583,7 +605,7 @@ impl Engine for C06 {
                 let step = if thorough { 4 } else { 8 };
                 let n = texts.len();
                 // every step-th program and always the two programs built for this property
-                for (i, t) in texts.iter().enumerate().filter(|(i, _)| i % step == 0 || *i + 5 + LARGE >= n) {
+                for (i, t) in texts.iter().enumerate().filter(|(i, _)| i % step == 0 || *i + 6 + LARGE >= n) {
                     if sink.expired() {
                         return;
                     }
